@@ -2,15 +2,20 @@
    Part 1 (action plugins): the hand-written index arithmetic of modify / parse_re2 / json_extract / hash /
    convert_utf8_bytes / split is modelled in the result monad of Base/GoSem.v and proved total and
    tree-well-formedness preserving; mask, keep_fields / remove_fields, join / join_template / k8s multiline,
-   decode and throttle are covered by C17, C18, C15, C12 and C16; the remaining plugins are exercised only by the
-   generic differential harness (listed in the evidence).
+   decode and throttle are covered by C17, C18, C15, C12 and C16; the remaining fourteen plugins (rename, move,
+   flatten, json_encode, json_decode, convert_log_level, set_time, add_host, add_file_name, convert_date, discard,
+   debug, parse_es, cardinality: pure insane-json mutations and library calls) have exact tree-level models of Do
+   (Model/Actions/ExtraPlugins.v) with totality, well-formedness and content specifications.
    Part 2 (processor): a time-out event is only ever handed to an action that holds an event (module
    C13_proc at the end; model coq/Model/Proc.v, replayed on every real pipeline trace). Statements only. *)
 From Verif Require Import Base.Sx Base.GoSem Base.Json Model.Decoders.Common
   Model.Actions.Tree Model.Actions.Subst Model.Actions.ConvertUtf8 Model.Actions.HashNorm Model.Actions.Plugins
-  Model.Actions.Entry.
-From Verif Require Proofs.Actions.Theorems Proofs.Actions.Plugins.
+  Model.Actions.Entry Model.Actions.ExtraTree Model.Actions.ExtraPlugins.
+From Verif Require Proofs.Actions.Theorems Proofs.Actions.Plugins Proofs.Actions.ExtraTree Proofs.Actions.ExtraPlugins.
+From Coq Require Import Permutation.
 Import Proofs.Actions.Plugins.   (* sop_valid / filter_valid: what the filter parsers accept *)
+Import Proofs.Actions.ExtraTree.   (* last_get: the last value a field list gives a key *)
+Import Proofs.Actions.ExtraPlugins. (* paths_nonempty, fields_nonempty, kept, receive, es_inv *)
 
 (* ---- modify: cfg/substitution filters ----------------------------------------------------------- *)
 Theorem c13_modify_cut_total : forall first count src p, 0 < count -> cut_apply first count src <> Panic p.
@@ -133,6 +138,335 @@ Theorem c13_generic_predicate : forall which plugins events obs,
 Proof. exact Theorems.c13_generic_predicate. Qed.
 Print Assumptions c13_generic_predicate.
 
+
+(* ==== tree-level models of the plugins that are pure insane-json mutations and library calls ==========
+   (Model/Actions/ExtraPlugins.v, sub-models 42..49).  A result is (ActionResult, tree): 0 Pass, 1 Collapse,
+   2 Discard.  <plugin>_total: for EVERY tree and every configuration the plugin's validation accepts the
+   model answers Ok (no panic, no broken event); <plugin>_wf: a defined result and a well-formed tree;
+   <plugin>_spec: what changes and that nothing else does. *)
+
+(* ---- rename ------------------------------------------------------------------------------------- *)
+(* ---- rename ------------------------------------------------------------------------------------- *)
+(* full strength is FALSE: the accepted configuration key "_" is the empty selector, Do ties the root
+   into itself (finding C13-rename-empty-path-cycle) *)
+Theorem c13_rename_total_refuted : exists preserve ops root, rename_do preserve ops root = Err 1.
+Proof. exact rename_empty_path_refuted. Qed.
+Print Assumptions c13_rename_total_refuted.
+
+Theorem c13_rename_total_wf_partial :
+  (forall preserve ops root, paths_nonempty ops = true ->
+  exists r, rename_do preserve ops root = Ok (APass, r))
+  /\
+  (forall preserve ops root a r, wf_json root = true ->
+  rename_do preserve ops root = Ok (a, r) -> a = APass /\ wf_json r = true).
+Proof. exact (conj rename_total rename_wf). Qed.
+Print Assumptions c13_rename_total_wf_partial.
+
+Theorem c13_rename_spec :
+  (forall preserve root path name, path <> [] ->
+  exists r, rename_step preserve root (path, name) = Ok r /\
+    ((preserve = true /\ jdig root [name] <> None) \/ jdig root path = None -> r = root) /\
+    (forall v, preserve = false \/ jdig root [name] = None -> jdig root path = Some v ->
+       r = obj_set name v (jremove root path) /\
+       (is_object root = false -> r = jremove root path) /\
+       (forall fs1, jremove root path = JObj fs1 ->
+          exists fs2, r = JObj fs2 /\ field_get fs2 name = Some v /\
+                      forall k, k <> name -> field_get fs2 k = field_get fs1 k)))
+  /\
+  (forall preserve fs k name v,
+  field_get fs k = Some v -> preserve = false \/ field_get fs name = None -> NoDup (map fst fs) ->
+  exists fs2, rename_step preserve (JObj fs) ([k], name) = Ok (JObj fs2) /\
+    field_get fs2 name = Some v /\
+    (name <> k -> field_get fs2 k = None) /\
+    (forall k', k' <> name -> k' <> k -> field_get fs2 k' = field_get fs k')).
+Proof. exact (conj rename_step_spec rename_top_level_spec). Qed.
+Print Assumptions c13_rename_spec.
+
+(* "every other field holds what it held" needs the hypothesis on duplicate keys (swap-remove reorders) *)
+Theorem c13_rename_other_fields_refuted : exists fs k name k',
+  k' <> name /\ k' <> k /\
+  exists fs2, rename_step false (JObj fs) ([k], name) = Ok (JObj fs2) /\ field_get fs2 k' <> field_get fs k'.
+Proof. exact rename_other_fields_refuted. Qed.
+Print Assumptions c13_rename_other_fields_refuted.
+
+(* ---- shared: Suicide of an object field, MergeToRoot, Dig after a Mutate --------------------------- *)
+(* Suicide of an object field: the other fields stay, up to the swap-remove reordering *)
+(* ---- flatten, json_decode (MergeToRoot) ---------------------------------------------------------- *)
+(* Dig after a Mutate of the node Dig finds *)
+Theorem c13_tree_ops_spec :
+  (forall fs k v, field_get fs k = Some v ->
+  exists fs', jremove (JObj fs) [k] = JObj fs' /\ Permutation fs ((k, v) :: fs') /\
+    (NoDup (map fst fs) -> forall k', k' <> k -> field_get fs' k' = field_get fs k') /\
+    (NoDup (map fst fs) -> field_get fs' k = None))
+  /\
+  (forall fs src k,
+  exists fs', merge_to_root (JObj fs) src = JObj fs' /\
+    field_get fs' k = match last_get src k with Some v => Some v | None => field_get fs k end)
+  /\
+  (forall (f : json -> json) path j v,
+  jdig j path = Some v -> jdig (jupdate j path f) path = Some (f v)).
+Proof. exact (conj jremove_field_spec (conj merge_to_root_get jdig_jupdate_same)). Qed.
+Print Assumptions c13_tree_ops_spec.
+
+(* ---- move --------------------------------------------------------------------------------------- *)
+(* ---- move --------------------------------------------------------------------------------------- *)
+Theorem c13_move_allow_total_wf :
+  (forall target fields root, fields_nonempty fields = true ->
+  exists r, move_allow_do target fields root = Ok (APass, r))
+  /\
+  (forall target fields root a r, wf_json root = true ->
+  move_allow_do target fields root = Ok (a, r) -> a = APass /\ wf_json r = true).
+Proof. exact (conj move_allow_total move_allow_wf). Qed.
+Print Assumptions c13_move_allow_total_wf.
+
+(* moving an ancestor of the target takes the target out of the event: from then on fields are only removed *)
+Theorem c13_move_allow_spec :
+  (forall target root field v,
+  jdig root field = Some v -> field <> [] ->
+  path_eqb field target = false -> path_proper_prefix field target = false ->
+  exists name, idx field (len field - 1) = Ok name /\
+    move_allow_step target (root, true) field = Ok (jupdate (jremove root field) target (obj_set name v), true) /\
+    forall t, jdig (jremove root field) target = Some t ->
+      jdig (jupdate (jremove root field) target (obj_set name v)) target = Some (obj_set name v t))
+  /\
+  (forall target root alive field,
+  (jdig root field = None \/ (alive = true /\ path_eqb field target = true)) ->
+  move_allow_step target (root, alive) field = Ok (root, alive))
+  /\
+  (forall target root alive field v,
+  jdig root field = Some v -> field <> [] ->
+  alive = false \/ (path_eqb field target = false /\ path_proper_prefix field target = true) ->
+  move_allow_step target (root, alive) field = Ok (jremove root field, false)).
+Proof. exact (conj move_allow_step_spec (conj move_allow_step_skip move_allow_step_detached)). Qed.
+Print Assumptions c13_move_allow_spec.
+
+Theorem c13_move_block_total_wf :
+  (forall target blocked root, exists r, move_block_do target blocked root = Ok (APass, r))
+  /\
+  (forall target blocked root a r, wf_json root = true ->
+  move_block_do target blocked root = Ok (a, r) -> a = APass /\ wf_json r = true).
+Proof. exact (conj move_block_total move_block_wf). Qed.
+Print Assumptions c13_move_block_total_wf.
+
+(* the root keeps, in some order, exactly the target and the blocked names; the target receives every
+   other field in the original order *)
+Theorem c13_move_block_spec : forall target blocked fs,
+  let fs1 := set_field fs target (coerce_obj (field_get fs target)) in
+  exists tid tfs cur tfs',
+    field_index fs1 target 0 = Some tid /\ nth_error fs1 tid = Some (target, JObj tfs) /\
+    move_block_do target blocked (JObj fs) = Ok (APass, JObj (untag tid tfs' cur)) /\
+    Permutation cur (filter (kept blocked tid) (tagged fs1)) /\
+    tfs' = receive tfs (filter (fun e => negb (kept blocked tid e)) (tagged fs1)).
+Proof. exact move_block_spec. Qed.
+Print Assumptions c13_move_block_spec.
+
+(* ---- flatten, json_decode (MergeToRoot), json_encode ---------------------------------------------- *)
+Theorem c13_flatten_total_wf :
+  (forall path prefix root, exists r, flatten_do path prefix root = Ok (APass, r))
+  /\
+  (forall path prefix root a r, wf_json root = true ->
+  flatten_do path prefix root = Ok (a, r) -> a = APass /\ wf_json r = true).
+Proof. exact (conj flatten_total flatten_wf). Qed.
+Print Assumptions c13_flatten_total_wf.
+
+Theorem c13_flatten_spec :
+  (forall path prefix root,
+  (forall fs, jdig root path <> Some (JObj fs)) -> flatten_do path prefix root = Ok (APass, root))
+  /\
+  (forall path prefix rfs fs,
+  jdig (JObj rfs) path = Some (JObj fs) ->
+  exists fs1 fs2, jremove (JObj rfs) path = JObj fs1 /\
+    flatten_do path prefix (JObj rfs) = Ok (APass, JObj fs2) /\
+    forall k, field_get fs2 k = match last_get (prefix_fields prefix fs) k with Some v => Some v | None => field_get fs1 k end)
+  /\
+  (forall path prefix root fs,
+  is_object root = false -> jdig root path = Some (JObj fs) -> flatten_do path prefix root = Ok (APass, jremove root path)).
+Proof. exact (conj flatten_spec (conj flatten_object_spec flatten_not_object_root)). Qed.
+Print Assumptions c13_flatten_spec.
+
+Theorem c13_json_decode_total_wf :
+  (forall path prefix doc root, exists r, json_decode_do path prefix doc root = Ok (APass, r))
+  /\
+  (forall path prefix doc root a r, wf_json root = true ->
+  (forall d, doc = Some d -> wf_json d = true) ->
+  json_decode_do path prefix doc root = Ok (a, r) -> a = APass /\ wf_json r = true).
+Proof. exact (conj json_decode_total json_decode_wf). Qed.
+Print Assumptions c13_json_decode_total_wf.
+
+Theorem c13_json_decode_spec :
+  (forall path prefix doc root,
+  jdig root path = None \/ (forall fs, doc <> Some (JObj fs)) -> json_decode_do path prefix doc root = Ok (APass, root))
+  /\
+  (forall path prefix rfs fs v,
+  jdig (JObj rfs) path = Some v ->
+  exists fs1 fs2, jremove (JObj rfs) path = JObj fs1 /\
+    json_decode_do path prefix (Some (JObj fs)) (JObj rfs) = Ok (APass, JObj fs2) /\
+    forall k, field_get fs2 k = match last_get (prefix_fields prefix fs) k with Some x => Some x | None => field_get fs1 k end).
+Proof. exact (conj json_decode_spec json_decode_object_spec). Qed.
+Print Assumptions c13_json_decode_spec.
+
+(* ---- json_encode -------------------------------------------------------------------------------- *)
+Theorem c13_json_encode :
+  (forall path enc root, exists r, json_encode_do path enc root = Ok (APass, r))
+  /\
+  (forall path enc root a r, wf_json root = true ->
+  json_encode_do path enc root = Ok (a, r) -> a = APass /\ wf_json r = true)
+  /\
+  (forall path enc root,
+  (jdig root path = None -> json_encode_do path enc root = Ok (APass, root)) /\
+  (forall v, jdig root path = Some v ->
+     exists r, json_encode_do path enc root = Ok (APass, r) /\ r = jupdate root path (fun _ => JStr enc) /\
+               jdig r path = Some (JStr enc))).
+Proof. exact (conj json_encode_total (conj json_encode_wf json_encode_spec)). Qed.
+Print Assumptions c13_json_encode.
+
+(* ---- convert_log_level -------------------------------------------------------------------------- *)
+(* ---- convert_log_level -------------------------------------------------------------------------- *)
+Theorem c13_convert_log_level_total_wf :
+  (forall norm path style_string default rof root,
+  exists r, convert_log_level_do norm path style_string default rof root = Ok (APass, r))
+  /\
+  (forall norm path style_string default rof root a r, wf_json root = true ->
+  convert_log_level_do norm path style_string default rof root = Ok (a, r) -> a = APass /\ wf_json r = true).
+Proof. exact (conj convert_log_level_total convert_log_level_wf). Qed.
+Print Assumptions c13_convert_log_level_total_wf.
+
+Theorem c13_convert_log_level_spec :
+  (forall norm path style_string default rof root v,
+  jdig root path = Some v ->
+  let level := if (len (as_string (Some v)) =? 0) && negb (len default =? 0) then default else as_string (Some v) in
+  let n := level_number (norm level) in
+  (n < 0 -> convert_log_level_do norm path style_string default rof root
+              = Ok (APass, if rof then jremove root path else root)) /\
+  (0 <= n -> exists nv r, convert_log_level_do norm path style_string default rof root = Ok (APass, r) /\
+      (if style_string then idx level_names n = Ok (as_string (Some nv)) /\ nv = JStr (as_string (Some nv))
+       else nv = JNum (format_uint n)) /\
+      r = jupdate root path (fun _ => nv) /\ jdig r path = Some nv))
+  /\
+  (forall norm path style_string rof root,
+  jdig root path = None -> convert_log_level_do norm path style_string [] rof root = Ok (APass, root)).
+Proof. exact (conj convert_log_level_spec convert_log_level_missing). Qed.
+Print Assumptions c13_convert_log_level_spec.
+
+(* ---- set_time, add_host, add_file_name, convert_date, discard, debug ------------------------------ *)
+(* ---- set_time, add_host, add_file_name, convert_date, discard, debug ------------------------------ *)
+Theorem c13_set_time :
+  (forall field override value root, exists r, set_time_do field override value root = Ok (APass, r))
+  /\
+  (forall field override value root a r, wf_json root = true -> wf_json value = true ->
+  set_time_do field override value root = Ok (a, r) -> a = APass /\ wf_json r = true)
+  /\
+  (forall field override value root,
+  (forall v, jdig root [field] = Some v ->
+     set_time_do field override value root = Ok (APass, if override then jupdate root [field] (fun _ => value) else root) /\
+     (override = true -> jdig (jupdate root [field] (fun _ => value)) [field] = Some value)) /\
+  (jdig root [field] = None -> forall fs, root = JObj fs ->
+     exists fs2, set_time_do field override value root = Ok (APass, JObj fs2) /\
+       field_get fs2 field = Some value /\ forall k, k <> field -> field_get fs2 k = field_get fs k) /\
+  (jdig root [field] = None -> is_object root = false -> set_time_do field override value root = Ok (APass, root))).
+Proof. exact (conj set_time_total (conj set_time_wf set_time_spec)). Qed.
+Print Assumptions c13_set_time.
+
+Theorem c13_add_host :
+  (forall field host root, exists r, add_host_do field host root = Ok (APass, r))
+  /\
+  (forall field host root a r, wf_json root = true ->
+  add_host_do field host root = Ok (a, r) -> a = APass /\ wf_json r = true)
+  /\
+  (forall field host root,
+  (forall fs, root = JObj fs -> exists fs2, add_host_do field host root = Ok (APass, JObj fs2) /\
+      field_get fs2 field = Some (JStr host) /\ forall k, k <> field -> field_get fs2 k = field_get fs k) /\
+  (is_object root = false -> add_host_do field host root = Ok (APass, root))).
+Proof. exact (conj add_host_total (conj add_host_wf add_host_spec)). Qed.
+Print Assumptions c13_add_host.
+
+Theorem c13_add_file_name :
+  (forall path source root, exists r, add_file_name_do path source root = Ok (APass, r))
+  /\
+  (forall path source root a r, wf_json root = true ->
+  add_file_name_do path source root = Ok (a, r) -> a = APass /\ wf_json r = true)
+  /\
+  (forall k rest source fs,
+  exists fs2, add_file_name_do (k :: rest) source (JObj fs) = Ok (APass, JObj fs2) /\
+    field_get fs2 k = Some (create_nested (coerce_obj (field_get fs k)) rest (JStr source)) /\
+    forall k', k' <> k -> field_get fs2 k' = field_get fs k').
+Proof. exact (conj add_file_name_total (conj add_file_name_wf add_file_name_spec)). Qed.
+Print Assumptions c13_add_file_name.
+
+Theorem c13_convert_date_total_wf :
+  (forall path rof table root, exists r, convert_date_do path rof table root = Ok (APass, r))
+  /\
+  (forall path rof table root a r, wf_json root = true ->
+  (forall v, In (Some v) table -> wf_json v = true) ->
+  convert_date_do path rof table root = Ok (a, r) -> a = APass /\ wf_json r = true).
+Proof. exact (conj convert_date_total convert_date_wf). Qed.
+Print Assumptions c13_convert_date_total_wf.
+
+(* first-match selection over the source formats *)
+Theorem c13_convert_date_spec :
+  (forall path rof table root v,
+  jdig root path = Some v ->
+  let valid := match v with JStr _ | JNum _ => true | _ => false end in
+  (forall nv, valid = true -> first_some table = Some nv ->
+     convert_date_do path rof table root = Ok (APass, jupdate root path (fun _ => nv)) /\
+     jdig (jupdate root path (fun _ => nv)) path = Some nv) /\
+  (valid = false \/ first_some table = None ->
+     convert_date_do path rof table root = Ok (APass, if rof then jremove root path else root)))
+  /\
+  (forall (l : list (option json)),
+  match first_some l with
+  | Some x => exists a b, l = a ++ Some x :: b /\ Forall (fun o => o = None) a
+  | None => Forall (fun o => o = None) l
+  end).
+Proof. exact (conj convert_date_spec first_some_spec). Qed.
+Print Assumptions c13_convert_date_spec.
+
+Theorem c13_discard_debug : forall root,
+  discard_do root = Ok (ADiscard, root) /\ debug_do root = Ok (APass, root).
+Proof. exact discard_debug_spec. Qed.
+Print Assumptions c13_discard_debug.
+
+(* ---- parse_es (the "wrong state" panic is unreachable), cardinality (no cache entry expires) ------ *)
+(* ---- parse_es: the "wrong state" panic is unreachable -------------------------------------------- *)
+Theorem c13_parse_es :
+  (forall evs st, es_inv st = true ->
+  exists rs st1, parse_es_run st evs = Ok (rs, st1) /\ es_inv st1 = true /\
+    length rs = length evs /\ Forall (fun r => r = APass \/ r = ACollapse \/ r = ADiscard) rs)
+  /\
+  (forall root,
+  (forall st, parse_es_do st None = Ok (ADiscard, st)) /\
+  parse_es_do (true, false) (Some root) = Ok (APass, (false, false)) /\
+  parse_es_do (false, true) (Some root) = Ok (ACollapse, (false, false)) /\
+  parse_es_do (false, false) (Some root) =
+    Ok (if is_some (jdig root [k_delete]) then (ACollapse, (false, false))
+        else if is_some (jdig root [k_update]) then (ACollapse, (false, true))
+        else if is_some (jdig root [k_index]) || is_some (jdig root [k_create]) then (ACollapse, (true, false))
+        else (ADiscard, (false, false)))).
+Proof. exact (conj parse_es_total parse_es_spec). Qed.
+Print Assumptions c13_parse_es.
+
+(* ---- cardinality (no entry of the cache expires) -------------------------------------------------- *)
+Theorem c13_cardinality :
+  (forall keys fields limit action cache root,
+  exists r t cache1, card_do keys fields limit action cache root = Ok (r, t, cache1) /\ (r = APass \/ r = ADiscard))
+  /\
+  (forall keys fields limit action cache root r t cache1, wf_json root = true ->
+  card_do keys fields limit action cache root = Ok (r, t, cache1) -> wf_json t = true)
+  /\
+  (forall keys fields limit action cache root,
+  let prefix := append_to (map fst keys) (map (fun kf => as_string (jdig root (snd kf))) keys) in
+  let over := (0 <=? limit) && (limit <=? count_prefix cache prefix) in
+  (over = true -> action = 1 -> card_do keys fields limit action cache root = Ok (ADiscard, root, cache)) /\
+  (over = true -> action = 2 -> card_do keys fields limit action cache root
+       = Ok (APass, fold_left (fun r kf => jremove r (snd kf)) fields root, cache)) /\
+  (over = false \/ (action <> 1 /\ action <> 2) ->
+     exists cache1, card_do keys fields limit action cache root = Ok (APass, root, cache1) /\
+       let full := prefix ++ append_to (map fst fields) (map (fun kf => as_string (jdig root (snd kf))) fields) in
+       mem_bytes full cache1 = true /\ (mem_bytes full cache = true -> cache1 = cache) /\
+       (mem_bytes full cache = false -> cache1 = full :: cache))).
+Proof. exact (conj card_total (conj card_wf card_spec)). Qed.
+Print Assumptions c13_cardinality.
+
 (* ---- non-vacuity -------------------------------------------------------------------------------- *)
 From Coq Require Import Strings.String.
 Local Open Scope Z_scope.
@@ -174,6 +508,81 @@ Example c13_tree_nonvacuous :
   /\ hash_do (fun _ _ => 18446744073709551615) (JObj [(bs "message", JStr (bs "abc"))]) [([bs "message"], false, 2)] [bs "a"; bs "hash"]
     = Ok (JObj [(bs "message", JStr (bs "abc")); (bs "a", JObj [(bs "hash", JNum (bs "18446744073709551615"))])])
   /\ wf_json (JObj [(bs "n", JNum (bs "-1.5e+3"))]) = true /\ wf_json (JNum (bs "01")) = false /\ wf_json (JNum (bs ".5")) = false.
+Proof. repeat split; vm_compute; reflexivity. Qed.
+
+
+(* ---- non-vacuity of the tree-level theorems 42..49 -------------------------------------------------- *)
+Example c13_rename_nonvacuous :
+  (* {"a":{"b":1},"x":2,"y":3}  rename a.b -> x with override, then a -> z: swap-remove order shows *)
+  paths_nonempty [([bs "a"; bs "b"], bs "x"); ([bs "a"], bs "z")] = true
+  /\ rename_do false [([bs "a"; bs "b"], bs "x"); ([bs "a"], bs "z")]
+       (JObj [(bs "a", JObj [(bs "b", JNum (bs "1"))]); (bs "x", JNum (bs "2")); (bs "y", JNum (bs "3"))])
+     = Ok (APass, JObj [(bs "y", JNum (bs "3")); (bs "x", JNum (bs "1")); (bs "z", JObj [])])
+  /\ rename_do true [([bs "a"; bs "b"], bs "x")]
+       (JObj [(bs "a", JObj [(bs "b", JNum (bs "1"))]); (bs "x", JNum (bs "2"))])
+     = Ok (APass, JObj [(bs "a", JObj [(bs "b", JNum (bs "1"))]); (bs "x", JNum (bs "2"))]).
+Proof. repeat split; vm_compute; reflexivity. Qed.
+
+Example c13_move_nonvacuous :
+  (* README example 1 (allow) and 2 (block) of the move action *)
+  move_allow_do [bs "other"] [[bs "log"; bs "stream"]; [bs "zone"]]
+    (JObj [(bs "service", JStr (bs "test")); (bs "log", JObj [(bs "level", JStr (bs "error")); (bs "stream", JStr (bs "stderr"))]);
+           (bs "zone", JStr (bs "z501"))])
+  = Ok (APass, JObj [(bs "service", JStr (bs "test")); (bs "log", JObj [(bs "level", JStr (bs "error"))]);
+                     (bs "other", JObj [(bs "stream", JStr (bs "stderr")); (bs "zone", JStr (bs "z501"))])])
+  /\ move_block_do (bs "other") [bs "log"]
+    (JObj [(bs "service", JStr (bs "test")); (bs "log", JObj []); (bs "zone", JStr (bs "z501"));
+           (bs "other", JObj [(bs "user", JStr (bs "ivanivanov"))])])
+  = Ok (APass, JObj [(bs "other", JObj [(bs "user", JStr (bs "ivanivanov")); (bs "service", JStr (bs "test")); (bs "zone", JStr (bs "z501"))]);
+                     (bs "log", JObj [])])
+  (* the moved field is an ancestor of the target: the whole branch leaves the event, later fields are lost *)
+  /\ move_allow_do [bs "a"; bs "b"] [[bs "a"]; [bs "m"]] (JObj [(bs "a", JNum (bs "1")); (bs "m", JNum (bs "2"))])
+  = Ok (APass, JObj []).
+Proof. repeat split; vm_compute; reflexivity. Qed.
+
+Example c13_flatten_decode_encode_nonvacuous :
+  flatten_do [bs "a"] (bs "pre_") (JObj [(bs "a", JObj [(bs "b", JNum (bs "1")); (bs "c", JNull)]); (bs "pre_c", JBool true)])
+    = Ok (APass, JObj [(bs "pre_c", JNull); (bs "pre_b", JNum (bs "1"))])
+  /\ json_decode_do [bs "log"] (bs "p_") (Some (JObj [(bs "x", JNum (bs "1"))])) (JObj [(bs "log", JStr (bs "{""x"":1}")); (bs "k", JNull)])
+    = Ok (APass, JObj [(bs "k", JNull); (bs "p_x", JNum (bs "1"))])
+  /\ json_decode_do [bs "log"] [] None (JObj [(bs "log", JStr (bs "{"))]) = Ok (APass, JObj [(bs "log", JStr (bs "{"))])
+  /\ json_encode_do [bs "a"; bs "0"] (bs "{""b"":1}") (JObj [(bs "a", JArr [JObj [(bs "b", JNum (bs "1"))]; JNull])])
+    = Ok (APass, JObj [(bs "a", JArr [JStr (bs "{""b"":1}"); JNull])]).
+Proof. repeat split; vm_compute; reflexivity. Qed.
+
+Example c13_one_step_nonvacuous :
+  (* convert_log_level: " WARN " normalised by the oracle to "warn" *)
+  convert_log_level_do (fun s => if bytes_eqb s (bs " WARN ") then bs "warn" else s) [bs "level"] false [] false
+      (JObj [(bs "level", JStr (bs " WARN "))]) = Ok (APass, JObj [(bs "level", JNum (bs "4"))])
+  /\ convert_log_level_do (fun s => s) [bs "a"; bs "level"] true (bs "info") true (JObj [(bs "a", JArr [])])
+      = Ok (APass, JObj [(bs "a", JObj [(bs "level", JStr (bs "informational"))])])
+  /\ convert_log_level_do (fun s => s) [bs "level"] true [] true (JObj [(bs "level", JStr (bs "nope")); (bs "k", JNull)])
+      = Ok (APass, JObj [(bs "k", JNull)])
+  /\ set_time_do (bs "time") false (JNum (bs "1")) (JObj [(bs "time", JNull)]) = Ok (APass, JObj [(bs "time", JNull)])
+  /\ set_time_do (bs "time") true (JNum (bs "1")) (JObj []) = Ok (APass, JObj [(bs "time", JNum (bs "1"))])
+  /\ add_host_do (bs "host") (bs "h") (JObj [(bs "host", JNull)]) = Ok (APass, JObj [(bs "host", JStr (bs "h"))])
+  /\ add_file_name_do [bs "a"; bs "f"] (bs "x.log") (JObj [(bs "a", JNum (bs "1"))]) = Ok (APass, JObj [(bs "a", JObj [(bs "f", JStr (bs "x.log"))])])
+  /\ convert_date_do [bs "time"] true [None; Some (JNum (bs "1624379067"))] (JObj [(bs "time", JStr (bs "2021-06-22T16:24:27Z"))])
+      = Ok (APass, JObj [(bs "time", JNum (bs "1624379067"))])
+  /\ convert_date_do [bs "time"] true [None; None] (JObj [(bs "time", JStr (bs "x")); (bs "k", JNull)]) = Ok (APass, JObj [(bs "k", JNull)])
+  /\ convert_date_do [bs "time"] true [Some JNull] (JObj [(bs "time", JBool true)]) = Ok (APass, JObj []).
+Proof. repeat split; vm_compute; reflexivity. Qed.
+
+Example c13_sequences_nonvacuous :
+  (* parse_es: index line, document, time-out, update line, document, junk *)
+  es_inv (false, false) = true
+  /\ parse_es_run (false, false)
+       [Some (JObj [(bs "index", JObj [])]); Some (JObj [(bs "f", JNull)]); None; Some (JObj [(bs "update", JObj [])]);
+        Some (JObj [(bs "doc", JNull)]); Some (JObj [(bs "f", JNull)])]
+     = Ok ([1; 0; 2; 1; 1; 2], (false, false))
+  (* cardinality: limit 1 per service, the second distinct level of service a is discarded *)
+  /\ card_run [(bs "service", [bs "service"])] [(bs "level", [bs "level"])] 1 1 []
+       [JObj [(bs "service", JStr (bs "a")); (bs "level", JStr (bs "x"))];
+        JObj [(bs "service", JStr (bs "a")); (bs "level", JStr (bs "y"))];
+        JObj [(bs "service", JStr (bs "b")); (bs "level", JStr (bs "y"))]]
+     = Ok [(0, JObj [(bs "service", JStr (bs "a")); (bs "level", JStr (bs "x"))]);
+           (2, JObj [(bs "service", JStr (bs "a")); (bs "level", JStr (bs "y"))]);
+           (0, JObj [(bs "service", JStr (bs "b")); (bs "level", JStr (bs "y"))])].
 Proof. repeat split; vm_compute; reflexivity. Qed.
 
 (* ---- processor: the stream time-out reaches only the action that holds a run ------------------------ *)
